@@ -102,28 +102,41 @@ theorem exec_world (root : List Str) (c : Ctx) (ms : List Mut) (p : ShellPart) (
       · exact runMuts_world root [l] _ (fun x hx => by simp at hx; subst hx; exact hl)
   all_goals simp [exec, execWith, childRun, runMuts_world root ms _ h, runStages_world root ms _ _ h]
 
+/-- no subshell context abandons the parent's line; a stage that ends in a Rust `Err` fails alone -/
+theorem exec_aborted (root : List Str) (c : Ctx) (ms : List Mut) (p : ShellPart) (w : World)
+    (hc : c ≠ .pl) : (exec root c ms p w).aborted = false := by
+  cases c <;> simp_all [exec, execWith]
+
+/-- in `m1 | … | { mk; }` the line is abandoned only by an `exit` that the parent itself runs -/
+theorem pl_aborted (root : List Str) (init : List Mut) (l : Mut) (p : ShellPart) (w : World) :
+    (exec root .pl (init ++ [l]) p w).aborted =
+      ((lastpipeOn p || init.isEmpty) && (stepShell root l p).exited) := by
+  simp only [exec, execWith, prepare, splitLast_append, runStages_shell]
+  split <;> simp_all
+
 theorem exec_eq (root : List Str) (c : Ctx) (ms : List Mut) (p : ShellPart) (w : World)
     (hw : ∀ m ∈ ms, m.touchesWorld = false)
-    (he : (exec root c ms p w).aborted = false) :
+    (he : c = .pl → (exec root c ms p w).aborted = false) :
     exec root c ms p w =
       { shell := parentOwn root c ms p, world := w, status := (exec root c ms p w).status,
         out := (exec root c ms p w).out, aborted := false } := by
   have h1 := exec_shell root c ms p w
   have h2 := exec_world root c ms p w hw
+  have h3 : (exec root c ms p w).aborted = false := by
+    by_cases hc : c = .pl
+    · exact he hc
+    · exact exec_aborted root c ms p w hc
   cases hx : exec root c ms p w with
   | mk sh wo st ou ab =>
-    rw [hx] at h1 h2 he
-    simp at h1 h2 he
-    simp [h1, h2, he]
+    rw [hx] at h1 h2 h3
+    simp at h1 h2 h3
+    simp [h1, h2, h3]
 
-/-- outside pipelines of builtin stages nothing abandons the parent's line -/
-theorem exec_aborted (root : List Str) (c : Ctx) (ms : List Mut) (p : ShellPart) (w : World)
-    (hc : c ≠ .stages ∧ c ≠ .pl) : (exec root c ms p w).aborted = false := by
-  cases c <;> simp_all [exec, execWith]
-
-theorem exec_aborted_stages (root : List Str) (ms : List Mut) (p : ShellPart) (w : World) :
-    (exec root .stages ms p w).aborted = stagesErr fresh root ms p := by
-  simp [exec, execWith, prepare]
+/-- a pipeline of builtin stages ending in `true`: nothing comes back but status 0 -/
+theorem exec_stages (root : List Str) (ms : List Mut) (p : ShellPart) (w : World) :
+    (exec root .stages ms p w).shell = p ∧ (exec root .stages ms p w).status = 0 ∧
+    (exec root .stages ms p w).out = [] ∧ (exec root .stages ms p w).aborted = false := by
+  simp [exec, execWith, prepare, runStages_shell]
 
 /-! ### pipelines whose last command is a mutator -/
 
